@@ -30,33 +30,41 @@ structure Dbl where
   neg : Bool
   num : Nat
   den : Nat
-deriving Repr
+deriving DecidableEq, Repr
 
 /-- round-half-even of `q + r/d` (`r < d`) to an integer -/
 def roundHE (q r d : Nat) : Nat := if 2 * r > d ∨ (2 * r = d ∧ q % 2 = 1) then q + 1 else q
 
-/-- The binary64 nearest to `n / d` (`d > 0`), ties to even, as `(num, den)` with `den = 2^sh`; `none` = overflow (the
-rounded value is ≥ 2^1024). 53-bit significand: the quotient taken at the chosen scale lies in `[2^52, 2^53)`, or the
-scale is the subnormal quantum `2^-1074`. -/
+/-- rounding at the scale `2^-sh` (the result is a multiple of `2^-sh`) -/
+def roundDown (n d sh : Nat) : Nat × Nat := (roundHE (n * 2 ^ sh / d) (n * 2 ^ sh % d) d, 2 ^ sh)
+
+/-- the scale for `n / d < 2^53`: the quotient at that scale lies in `[2^52, 2^53)` (53-bit significand), or the scale is
+the subnormal quantum `2^-1074` -/
+def shiftOf (n d : Nat) : Nat :=
+  let sh0 := d.log2 + 52 - n.log2
+  min (if n * 2 ^ sh0 / d < 2 ^ 52 then sh0 + 1 else sh0) 1074
+
+/-- rounding at the scale `2^t` for `n / d ≥ 2^53`; `none` = overflow (the rounded value is ≥ 2^1024) -/
+def roundBig (n d : Nat) : Option (Nat × Nat) :=
+  let t0 := n.log2 - d.log2 - 52
+  let t := if n / (d * 2 ^ t0) < 2 ^ 52 then t0 - 1 else t0
+  let D := d * 2 ^ t
+  let q := roundHE (n / D) (n % D) D
+  if q * 2 ^ t ≥ 2 ^ 1024 then none else some (q * 2 ^ t, 1)
+
+/-- The binary64 nearest to `n / d` (`d > 0`), ties to even, as `(num, den)` with `den` a power of two; `none` = overflow. -/
 def roundQ (n d : Nat) : Option (Nat × Nat) :=
   if n = 0 then some (0, 1)
-  else
-    let k := n.log2
-    let l := d.log2
-    if k ≤ l + 52 then
-      let sh0 := l + 52 - k
-      let sh1 := if n * 2 ^ sh0 / d < 2 ^ 52 then sh0 + 1 else sh0
-      let sh := min sh1 1074
-      let N := n * 2 ^ sh
-      some (roundHE (N / d) (N % d) d, 2 ^ sh)
-    else
-      let t0 := k - l - 52
-      let t := if n / (d * 2 ^ t0) < 2 ^ 52 then t0 - 1 else t0
-      let D := d * 2 ^ t
-      let q := roundHE (n / D) (n % D) D
-      if q * 2 ^ t ≥ 2 ^ 1024 then none else some (q * 2 ^ t, 1)
+  else if n.log2 ≤ d.log2 + 52 then some (roundDown n d (shiftOf n d))
+  else roundBig n d
 
-def Dbl.ofQ (neg : Bool) (n d : Nat) : Option Dbl := (roundQ n d).map fun p => ⟨neg, p.1, p.2⟩
+/-- lowest terms of `n / d` for `d` a power of two (so that a value has ONE representation) -/
+def norm2 : Nat → Nat → Nat → Nat × Nat
+  | 0, n, d => (n, d)
+  | f + 1, n, d => if n % 2 = 0 ∧ d % 2 = 0 then norm2 f (n / 2) (d / 2) else (n, d)
+
+def Dbl.ofQ (neg : Bool) (n d : Nat) : Option Dbl :=
+  (roundQ n d).map fun p => ⟨neg, (norm2 1100 p.1 p.2).1, (norm2 1100 p.1 p.2).2⟩
 
 /-- `==` on floats (`-0.0 == 0.0`) -/
 def Dbl.eqv (a b : Dbl) : Bool :=
@@ -111,7 +119,7 @@ def floatOfStr (s : Str) : Option Dbl :=
 inductive Num
   | int (v : Int)
   | flt (x : Dbl)
-deriving Repr
+deriving DecidableEq, Repr
 
 /-- `QueryProcessor.float_or_int(x)` for a float `x`: `float(x) if x % 1 else int(x)` — an integral float becomes an
 exact `int`, anything else stays the float. -/
@@ -225,7 +233,7 @@ inductive Res
   | fail                                   -- `success = False`
   | ok (timex : Str) (value : Num)         -- `timex`, `future_value = past_value`
   | raises                                 -- KeyError / IndexError / ValueError (or inf / nan, not modelled)
-deriving Repr
+deriving DecidableEq, Repr
 
 def Res.success : Res → Bool
   | .ok _ _ => true
